@@ -53,6 +53,14 @@ def configs(tier):
     return c
 
 
+def _known_keys():
+    import vcommon
+    return set(vcommon.load_known().get(PROPERTY, {}))
+
+
+KNOWN_KEYS = _known_keys()
+
+
 class FakeRecord:
     def __init__(self, pos1, ref, alts, gts):
         self.pos = pos1
@@ -161,7 +169,8 @@ def run_config(cfg):
         n += 1
         for asp in ("support", "reference", "robust"):
             ps = [p for p in probs if p[0] == asp]
-            ob(res, f"{tag}: {asp}", "holds" if not ps else "sat")
+            ob(res, f"{tag}: {asp}", "holds" if not ps else (
+                "known-finding" if all(p[1] in KNOWN_KEYS for p in ps) else "sat"))
         kinds = {}
         for p in probs:
             kinds.setdefault(p[1], p)
